@@ -21,6 +21,7 @@ import (
 	"github.com/google/gce-tcb-verifier/cmd/output"
 	"github.com/google/gce-tcb-verifier/endorse"
 	"github.com/google/gce-tcb-verifier/keys"
+	epb "github.com/google/gce-tcb-verifier/proto/endorsement"
 	"github.com/google/gce-tcb-verifier/rotate"
 	"github.com/google/gce-tcb-verifier/sign/gcsca"
 	"github.com/google/gce-tcb-verifier/sign/memca"
@@ -31,6 +32,8 @@ import (
 	"github.com/google/gce-tcb-verifier/storage/storagei"
 	"github.com/google/gce-tcb-verifier/testing/nonprod/localkm"
 	"github.com/google/gce-tcb-verifier/testing/nonprod/memkm"
+
+	"google.golang.org/protobuf/proto"
 
 	"verifharness/doubles"
 )
@@ -127,6 +130,10 @@ func (a *Assembly) FreshCA() styp.CertificateAuthority {
 	}
 	return &gcsca.CertificateAuthority{Storage: a.rawStore(), PrivateBucket: Bucket, RootPath: RootPath, SigningCertDirInGCS: CertDir}
 }
+
+// DropLongLived forgets the long-lived authority value (the process restarted, or a careful caller
+// discarded / flushed it after an error).
+func (a *Assembly) DropLongLived() { a.llCA, a.llStore = nil, nil }
 
 // Opts are the global flags of one command.
 type Opts struct {
@@ -259,6 +266,7 @@ func (a *Assembly) Snapshot() *Snap {
 
 // Restore puts a snapshot back (the snapshot stays reusable).
 func (a *Assembly) Restore(s *Snap) {
+	a.DropLongLived()
 	if a.MemSigner != nil {
 		a.MemSigner.Keys = map[string]*rsa.PrivateKey{}
 		for k, v := range s.keys {
@@ -367,6 +375,33 @@ func (a *Assembly) Health() string {
 	}
 	if err := rsa.VerifyPSS(pk, crypto.SHA256, d[:], sig, nil); err != nil {
 		return "signature of primary does not verify under its certificate"
+	}
+	return ""
+}
+
+// SignProbe signs a minimal document through the same wiring an endorse run uses (endorse.SignDoc) with the
+// authority value of this process (the long-lived one when LongLived is set) and checks the signature under the
+// embedded certificate. It returns "" when endorsing works.
+func (a *Assembly) SignProbe(now time.Time) string {
+	ctx, err := a.Context(&doubles.FCtl{}, Opts{})
+	if err != nil {
+		return "context: " + err.Error()
+	}
+	e, err := endorse.SignDoc(endorse.NewContext(ctx, &endorse.Context{Timestamp: now}), &epb.VMGoldenMeasurement{Digest: make([]byte, 48), ClSpec: 1})
+	if err != nil {
+		return "endorse.SignDoc: " + err.Error()
+	}
+	g := &epb.VMGoldenMeasurement{}
+	if err := proto.Unmarshal(e.SerializedUefiGolden, g); err != nil {
+		return "payload: " + err.Error()
+	}
+	cert, err := x509.ParseCertificate(g.Cert)
+	if err != nil {
+		return "embedded certificate: " + err.Error()
+	}
+	d := sha256.Sum256(e.SerializedUefiGolden)
+	if err := rsa.VerifyPSS(cert.PublicKey.(*rsa.PublicKey), crypto.SHA256, d[:], e.Signature, nil); err != nil {
+		return "signature does not verify under the embedded certificate"
 	}
 	return ""
 }
